@@ -64,6 +64,12 @@ fn judge_fail(r: &RunResult, height: u64) -> Option<(String, String)> {
         return Some(("machinery-timeout".into(), "".into()));
     }
     if r.code == Some(0) {
+        // a block the run itself declares outside its processed range is C02's business, not C09's
+        if let (Some(s), Some(e)) = (r.declared_start(), r.declared_end()) {
+            if height < s || height > e {
+                return None;
+            }
+        }
         return Some(("corruption-accepted".into(), format!("exit 0 although the block at height {} is corrupted; files {:?}", height, r.files.keys().collect::<Vec<_>>())));
     }
     if !r.final_files().is_empty() {
